@@ -471,6 +471,14 @@ class atom(boolean.AndRestriction):
         if c:
             return c
 
+        c = cmp(f(self.subslot), f(other.subslot))
+        if c:
+            return c
+
+        c = cmp(f(self.slot_operator), f(other.slot_operator))
+        if c:
+            return c
+
         c = cmp(self.use, other.use)
         if c:
             return c
